@@ -24,7 +24,7 @@
    Not proved: that every schedule is finite (fair termination); the statement is about the
    configurations in which nothing can move. *)
 From stdpp Require Import gmap.
-From Otter Require Import Drain DrainProofs DrainBounded DrainMacro DrainInv.
+From Otter Require Import Drain DrainProofs DrainBounded DrainMacro DrainInv DrainF17.
 
 (* soundness of the exploration: a closed set containing the initial configuration contains every
    configuration reachable under every schedule *)
@@ -59,6 +59,32 @@ Theorem C14_no_stranding_with_lock_holders : forall w c rd rf g iv sched,
   let s := run_sched (dinitA w c rd rf g iv) sched in terminal s = true -> drained s = true.
 Proof. exact drained_any_population_with_lock_holders. Qed.
 Print Assumptions C14_no_stranding_with_lock_holders.
+
+(* ... and any number of writers that find the write buffer FULL (afterWriteTask): every refused TryPush is
+   followed by a scheduleDrainBuffers call, and then the event is either accepted (the ordinary writer from
+   there on) or, the retries exhausted, the writer runs the maintenance itself (performCleanUp: Lock,
+   maintenance with its own event applied directly, Unlock, rescheduleCleanUpIfIncomplete).  Each element of
+   fs says how many refusals one such writer meets and which way it ends; the scheduleDrainBuffers calls are
+   helper threads, which the writer's goroutine runs to their end before it tries again — one of the schedules
+   quantified over, so the model allows at least what the code does *)
+Theorem C14_no_stranding_with_caller_runs_fallback : forall w c rd rf g iv fs sched,
+  let s := run_sched (dinitF w c rd rf g iv fs) sched in terminal s = true -> drained s = true.
+Proof. exact drained_any_population_with_fallback. Qed.
+Print Assumptions C14_no_stranding_with_caller_runs_fallback.
+
+(* non-vacuity: one ordinary writer, one CleanUp caller and two writers meeting a full buffer (three refusals
+   then accepted; two refusals then caller-runs) under a round-robin schedule end drained, all threads done *)
+Example C14_fallback_nonvacuous :
+  let s := run_sched (dinitF 1 1 0 0 0 0 [8; 5]) (concat (repeat (seq 0 16) 60)) in
+  terminal s = true /\ drained s = true /\ length (ths_of s) >= 9.
+Proof. vm_compute. repeat split; repeat constructor. Qed.
+
+(* the model is sensitive to the defect the code had (F17; F14 was the same for the views): an InvalidateAll
+   caller that does not look at the status again after unlocking strands a concurrent write *)
+Theorem C14_sensitive_to_F17 :
+  let s := run_f17 f17_init f17_sched in
+  terminal_f17 s = true /\ all_done s = true /\ drained s = false /\ ds_of s = 1 /\ wb_of s = 1.
+Proof. exact f17_strands_without_the_reschedule. Qed.
 
 (* the invariant behind it holds in every reachable configuration: in particular the eviction lock
    has exactly one owner when held and none when free, and a status of "processing" or "required"
